@@ -193,7 +193,7 @@ func c11Extract(args []string) int {
 	list := func(xs []string) string {
 		var q []string
 		for _, x := range xs {
-			q = append(q, leanStr(x))
+			q = append(q, sfLeanStr(x))
 		}
 		return "[" + strings.Join(q, ", ") + "]"
 	}
